@@ -474,6 +474,9 @@ func Run(c *common.Ctx) error {
 			return err
 		}
 	}
+	if err := retentionOff(c); err != nil {
+		return err
+	}
 	for i := 0; i < c.Pick(1, 3); i++ {
 		if err := multiDB(c, i); err != nil {
 			return err
